@@ -16,13 +16,11 @@
 #define sexp_bignum_normalize(x) x
 #endif
 
-/* The twos complement form of a negative bignum has a -1 sign */
-/* and bits adjusted as usual, extending just the high word with */
-/* leading ones.  Bitwise operations are then performed as usual. */
-/* If the result has a leading extended one from a twos complement */
-/* number, the complement is reversed and sign remains negative. */
-/* Otherwise, the result is positive, the sign is set to 1 and there's */
-/* no need to undo the complement. */
+#if SEXP_USE_BIGNUMS
+/* Bignums are stored as sign and magnitude.  The bitwise operations */
+/* work on the two's complement form of their operands; if the result */
+/* is negative it is converted back to sign and magnitude by */
+/* complementing it again in place. */
 static void sexp_set_twos_complement (sexp a) {
   int i, len=sexp_bignum_length(a), carry = 1;
   sexp_uint_t* data = sexp_bignum_data(a), n;
@@ -36,193 +34,73 @@ static void sexp_set_twos_complement (sexp a) {
   } while (++i<len && carry);
 }
 
-static sexp sexp_twos_complement (sexp ctx, sexp x) {
-  sexp_gc_var1(res);
-  if (sexp_bignump(x) && sexp_bignum_sign(x) < 0) {
-    sexp_gc_preserve1(ctx, res);
-    res = sexp_copy_bignum(ctx, NULL, x, 0);
-    sexp_set_twos_complement(res);
-    sexp_gc_release1(ctx);
-    return res;
+/* Word i of the two's complement form of the exact integer x, sign */
+/* extended as far as needed.  *carry (initially 1) is the running +1 */
+/* of a negated bignum, so the words must be asked for in order. */
+static sexp_uint_t sexp_bit_word (sexp x, sexp_sint_t i, int *carry) {
+  sexp_uint_t w;
+  if (sexp_fixnump(x))
+    return (i == 0) ? (sexp_uint_t)sexp_unbox_fixnum(x)
+      : (sexp_unbox_fixnum(x) < 0) ? (sexp_uint_t)-1 : 0;
+  w = (i < (sexp_sint_t)sexp_bignum_length(x)) ? sexp_bignum_data(x)[i] : 0;
+  if (sexp_bignum_sign(x) < 0) {
+    w = ~w + *carry;
+    *carry = *carry && (w == 0);
   }
-  return x;
+  return w;
 }
 
-static sexp sexp_fixnum_to_twos_complement (sexp ctx, sexp x, int len) {
-  int i;
-  sexp_gc_var1(res);
-  sexp_gc_preserve1(ctx, res);
+/* and (op 0), ior (op 1) or xor (op 2) of two exact integers.  Both are */
+/* sign extended to one word more than the longer needs, so the top word */
+/* of the result is pure sign and tells whether the complement has to be */
+/* undone. */
+static sexp sexp_bit_op (sexp ctx, sexp self, sexp x, sexp y, int op) {
+  sexp_sint_t i, len, leny;
+  sexp_uint_t a, b, *data;
+  int cx=1, cy=1;
+  sexp res;
+  if (! (sexp_fixnump(x) || sexp_bignump(x)))
+    return sexp_type_exception(ctx, self, SEXP_FIXNUM, x);
+  if (! (sexp_fixnump(y) || sexp_bignump(y)))
+    return sexp_type_exception(ctx, self, SEXP_FIXNUM, y);
+  len = sexp_bignump(x) ? sexp_bignum_hi(x) : 1;
+  leny = sexp_bignump(y) ? sexp_bignum_hi(y) : 1;
+  len = (len > leny ? len : leny) + 1;
   res = sexp_make_bignum(ctx, len);
-  if (sexp_unbox_fixnum(x) < 0)
-    for (i = len-1; i > 0; i--)
-      sexp_bignum_data(res)[i] = (sexp_uint_t)((sexp_sint_t)-1);
-  sexp_bignum_data(res)[0] = ~(-(sexp_unbox_fixnum(x)));
-  res = sexp_bignum_fxadd(ctx, res, 1);
-  if (sexp_bignum_length(res) == len + 1 && sexp_bignum_data(res)[len] == 1)
-    sexp_bignum_data(res)[len] = -1;
-  if (sexp_unbox_fixnum(x) < 0)
+  if (sexp_exceptionp(res)) return res;
+  data = sexp_bignum_data(res);
+  for (i=0; i<len; i++) {
+    a = sexp_bit_word(x, i, &cx);
+    b = sexp_bit_word(y, i, &cy);
+    data[i] = (op == 0) ? (a & b) : (op == 1) ? (a | b) : (a ^ b);
+  }
+  if ((sexp_sint_t)data[len-1] < 0) {
+    sexp_set_twos_complement(res);
     sexp_bignum_sign(res) = -1;
-  sexp_gc_release1(ctx);
-  return res;
+  }
+  return sexp_bignum_normalize(res);
 }
+#else
+#define sexp_bit_op(ctx, self, x, y, op) \
+  sexp_type_exception(ctx, self, SEXP_FIXNUM, sexp_fixnump(x) ? y : x)
+#endif
 
 sexp sexp_bit_and (sexp ctx, sexp self, sexp_sint_t n, sexp x, sexp y) {
-#if SEXP_USE_BIGNUMS
-  sexp_sint_t len, lenx, leny, i;
-#endif
-  sexp_gc_var3(res, x2, y2);
-  if (sexp_fixnump(x) && sexp_fixnump(y)) {
+  if (sexp_fixnump(x) && sexp_fixnump(y))
     return (sexp) ((sexp_uint_t)x & (sexp_uint_t)y);  /* safe to AND tags */
-#if SEXP_USE_BIGNUMS
-  } else if (sexp_fixnump(x) && sexp_bignump(y)) {
-    return sexp_bit_and(ctx, self, n, y, x);
-  } else if (sexp_bignump(x)) {
-    sexp_gc_preserve3(ctx, res, x2, y2);
-    x2 = sexp_twos_complement(ctx, x);
-    y2 = sexp_twos_complement(ctx, y);
-    if (sexp_fixnump(y2) && sexp_unbox_fixnum(y2) < 0)
-      y2 = sexp_fixnum_to_twos_complement(ctx, y2, sexp_bignum_length(x2));
-    if (sexp_fixnump(y2)) {
-      res = sexp_make_fixnum(sexp_unbox_fixnum(y2) & sexp_bignum_data(x2)[0]);
-    } else if (sexp_bignump(y2)) {
-      lenx = sexp_bignum_length(x2);
-      leny = sexp_bignum_length(y2);
-      if (leny < lenx)
-        res = sexp_copy_bignum(ctx, NULL, x2, 0);
-      else
-        res = sexp_copy_bignum(ctx, NULL, y2, 0);
-      for (i=0, len=sexp_bignum_length(res); i<len; i++)
-        sexp_bignum_data(res)[i]
-          = (i<lenx ? sexp_bignum_data(x2)[i] : sexp_bignum_sign(x2) < 0 ? -1 : 0) &
-            (i<leny ? sexp_bignum_data(y2)[i] : sexp_bignum_sign(y2) < 0 ? -1 : 0);
-      if ((sexp_bignum_sign(x2) < 0 || sexp_bignum_sign(y2) < 0) && ((sexp_sint_t)(sexp_bignum_data(res)[len-1])) < 0) {
-        sexp_set_twos_complement(res);
-        if (sexp_bignum_sign(res) > 0) {
-          sexp_negate_exact(res);
-        }
-      } else if (sexp_bignum_sign(res) < 0) {
-        sexp_negate_exact(res);
-      }
-    } else {
-      res = sexp_type_exception(ctx, self, SEXP_FIXNUM, y2);
-    }
-    sexp_gc_release3(ctx);
-    return sexp_bignum_normalize(res);
-#endif
-  } else {
-    return sexp_type_exception(ctx, self, SEXP_FIXNUM, x);
-  }
+  return sexp_bit_op(ctx, self, x, y, 0);
 }
 
 sexp sexp_bit_ior (sexp ctx, sexp self, sexp_sint_t n, sexp x, sexp y) {
-#if SEXP_USE_BIGNUMS
-  sexp_sint_t len, tmplen, i;
-#endif
-  sexp_gc_var2(res, tmp);
-  if (sexp_fixnump(x)) {
-    if (sexp_fixnump(y))
-      res = (sexp) ((sexp_uint_t)x | (sexp_uint_t)y);
-#if SEXP_USE_BIGNUMS
-    else if (sexp_bignump(y))
-      res = sexp_bit_ior(ctx, self, n, y, x);
-#endif
-    else
-      res = sexp_type_exception(ctx, self, SEXP_FIXNUM, y);
-#if SEXP_USE_BIGNUMS
-  } else if (sexp_bignump(x)) {
-    sexp_gc_preserve2(ctx, res, tmp);
-    if (sexp_fixnump(y) && sexp_unbox_fixnum(y) >= 0) {
-      res = sexp_copy_bignum(ctx, NULL, x, 0);
-      if (sexp_bignum_sign(res) < 0)
-        sexp_set_twos_complement(res);
-      sexp_bignum_data(res)[0] |= (sexp_uint_t)sexp_unbox_fixnum(y);
-      if (sexp_bignum_sign(res) < 0)
-        sexp_set_twos_complement(res);
-    } else if (sexp_bignump(y) || sexp_fixnump(y)) {
-      if (sexp_fixnump(y) || sexp_bignum_length(x) >= sexp_bignum_length(y)) {
-        res = sexp_copy_bignum(ctx, NULL, x, 0);
-        len = sexp_bignum_length(res);
-        tmp = sexp_fixnump(y) ? sexp_fixnum_to_twos_complement(ctx, y, len) : sexp_twos_complement(ctx, y);
-      } else {
-        res = sexp_copy_bignum(ctx, NULL, y, 0);
-        len = sexp_bignum_length(res);
-        tmp = sexp_twos_complement(ctx, x);
-      }
-      if (sexp_bignum_sign(res) < 0)
-        sexp_set_twos_complement(res);
-      tmplen = sexp_bignum_length(tmp);
-      for (i=0; i<len; i++)
-        sexp_bignum_data(res)[i] |= (i<tmplen ? sexp_bignum_data(tmp)[i] : sexp_bignum_sign(tmp) < 0 ? -1 : 0);
-      if ((sexp_bignum_sign(res) < 0 || sexp_bignum_sign(tmp) < 0) && ((sexp_sint_t)(sexp_bignum_data(res)[len-1])) < 0) {
-        sexp_set_twos_complement(res);
-        if (sexp_bignum_sign(res) > 0) {
-          sexp_negate_exact(res);
-        }
-      }
-    } else {
-      res = sexp_type_exception(ctx, self, SEXP_FIXNUM, y);
-    }
-    sexp_gc_release2(ctx);
-#endif
-  } else {
-    res = sexp_type_exception(ctx, self, SEXP_FIXNUM, x);
-  }
-  return sexp_bignum_normalize(res);
+  if (sexp_fixnump(x) && sexp_fixnump(y))
+    return (sexp) ((sexp_uint_t)x | (sexp_uint_t)y);
+  return sexp_bit_op(ctx, self, x, y, 1);
 }
 
 sexp sexp_bit_xor (sexp ctx, sexp self, sexp_sint_t n, sexp x, sexp y) {
-#if SEXP_USE_BIGNUMS
-  sexp_sint_t len, tmplen, i;
-#endif
-  sexp_gc_var2(res, tmp);
-  if (sexp_fixnump(x)) {
-    if (sexp_fixnump(y))
-      res = sexp_make_fixnum(sexp_unbox_fixnum(x) ^ sexp_unbox_fixnum(y));
-#if SEXP_USE_BIGNUMS
-    else if (sexp_bignump(y))
-      res = sexp_bit_xor(ctx, self, n, y, x);
-#endif
-    else
-      res = sexp_type_exception(ctx, self, SEXP_FIXNUM, y);
-#if SEXP_USE_BIGNUMS
-  } else if (sexp_bignump(x)) {
-    sexp_gc_preserve2(ctx, res, tmp);
-    if (sexp_fixnump(y) && sexp_unbox_fixnum(y) >= 0) {
-      res = sexp_copy_bignum(ctx, NULL, x, 0);
-      if (sexp_bignum_sign(res) < 0)
-        sexp_set_twos_complement(res);
-      sexp_bignum_data(res)[0] ^= sexp_unbox_fixnum(y);
-      if (sexp_bignum_sign(res) < 0)
-        sexp_set_twos_complement(res);
-    } else if (sexp_bignump(y) || sexp_fixnump(y)) {
-      if (sexp_fixnump(y) || sexp_bignum_length(x) >= sexp_bignum_length(y)) {
-        res = sexp_copy_bignum(ctx, NULL, x, 0);
-        tmp = sexp_fixnump(y) ? sexp_fixnum_to_twos_complement(ctx, y, sexp_bignum_length(x)) : sexp_twos_complement(ctx, y);
-        len = sexp_bignum_length(tmp);
-      } else {
-        res = sexp_copy_bignum(ctx, NULL, y, 0);
-        tmp = sexp_twos_complement(ctx, x);
-        len = sexp_bignum_length(tmp);
-      }
-      if (sexp_bignum_sign(res) < 0)
-        sexp_set_twos_complement(res);
-      tmplen = sexp_bignum_length(tmp);
-      for (i=0; i<len; i++)
-        sexp_bignum_data(res)[i] ^= (i<tmplen ? sexp_bignum_data(tmp)[i] : sexp_bignum_sign(tmp) < 0 ? -1 : 0);
-      if ((sexp_bignum_sign(x) < 0) ^ (sexp_fixnump(y) || sexp_bignum_sign(y) < 0))
-        sexp_set_twos_complement(res);
-      if (sexp_fixnump(y) || sexp_bignum_sign(y) < 0) {
-        sexp_negate_exact(res);
-      }
-    } else {
-      res = sexp_type_exception(ctx, self, SEXP_FIXNUM, y);
-    }
-    sexp_gc_release2(ctx);
-#endif
-  } else {
-    res = sexp_type_exception(ctx, self, SEXP_FIXNUM, x);
-  }
-  return sexp_bignum_normalize(res);
+  if (sexp_fixnump(x) && sexp_fixnump(y))
+    return sexp_make_fixnum(sexp_unbox_fixnum(x) ^ sexp_unbox_fixnum(y));
+  return sexp_bit_op(ctx, self, x, y, 2);
 }
 
 static int log2i(sexp_uint_t v) {
